@@ -312,10 +312,15 @@ func (x *Exec) runBody(recv *ast.FieldList, ftype *ast.FuncType, body *ast.Block
 			if lab == "" {
 				lab = fmt.Sprintf("ensures%d", i+1)
 			}
+			if strings.HasPrefix(en.Prop, "local:") {
+				if lo := x.conScope[strings.TrimPrefix(en.Prop, "local:")]; lo == nil || o.env[lo] == nil {
+					continue
+				}
+			}
 			phi := x.evalBool(en.Expr, o)
 			x.contract = false
 			ob := x.oblige(o, "post", lab, phi, en.Src)
-			if en.Prop != "" {
+			if en.Prop != "" && !strings.HasPrefix(en.Prop, "local:") {
 				ob.Prop = en.Prop
 			}
 			x.contract = true
